@@ -12,6 +12,7 @@ import Knut.Driver.Balance
 import Knut.Driver.Load
 import Knut.Driver.C17
 import Knut.Driver.C16
+import Knut.Driver.C20
 import Knut.Driver.C13
 import Knut.Driver.C14
 /-! Line-protocol driver over the executable model: one request per line (`op field*`), one answer line.
@@ -23,6 +24,7 @@ def handlers : List (List String → Option String) := [
   Knut.Driver.C18.handle,
   Knut.Driver.C17.handle,
   Knut.Driver.C16.handle,
+  Knut.Driver.C20.handle,
   Knut.Driver.C13.handle,
   Knut.Driver.C14.handle,
   Knut.Driver.C11.handle,
